@@ -815,8 +815,22 @@ fn gen_workload(rng: &mut Rng, _head: &str, idx: usize) -> (Vec<Op>, Vec<String>
                 tags.push("batch".into());
             }
             _ => {
-                ops.push(Op::Auto(Dml::Ins("nosuch".into(), 1, 1)));
+                // a failing autocommit statement, of several kinds (each must leave no trace, also in the log replay)
+                match rng.below(3) {
+                    0 => ops.push(Op::Auto(Dml::Ins("nosuch".into(), 1, 1))),
+                    1 => ops.push(Op::Auto(if family == "big_log" { Dml::CrtW(t.clone()) } else { Dml::Crt(t.clone()) })), // already exists
+                    _ => ops.push(Op::Auto(Dml::Drp("nosuch".into()))),
+                }
                 tags.push("failed_stmt".into());
+                // in a third of the cases a new table is created right afterwards and used
+                if rng.chance(1, 3) && family == "clean" {
+                    let extra = format!("t{}", 7 + rng.below(3));
+                    if !hasTable(&ops, &extra) {
+                        ops.push(Op::Auto(Dml::Crt(extra.clone())));
+                        ops.push(Op::Auto(Dml::Ins(extra.clone(), 1, rng.range(0, 99))));
+                        tags.push("create_after_failed_stmt".into());
+                    }
+                }
             }
         }
     }
